@@ -75,12 +75,13 @@ Proof. split; [repeat constructor | split; vm_compute; reflexivity]. Qed.
     Full statement: whenever [ExcludeRealm r patterns] returns a realm, it is
     [strict_realm G r] (ExcludeSpec.v): a schema / table / column / index / foreign key / check
     is kept iff no chain of G = split patterns selects its path (with the [type=...]
-    selectors), and what is kept is unchanged and in order.  The faithful model refutes it,
-    twice (both reproduced on the real code by the tie, known findings
-    C19-exclude-cascade-dependent and C19-exclude-bad-pattern-swallowed):
-    1. pattern "s.t.c" also removes index i of column c, although "i" matches no pattern;
-    2. the malformed pattern "s.t.[" returns NO error and a table without columns and
-       indexes (excludeT overwrites the error of an earlier filter). *)
+    selectors), and what is kept is unchanged and in order.  The faithful model refutes it
+    (reproduced on the real code by the tie, known finding C19-exclude-cascade-dependent):
+    pattern "s.t.c" also removes index i of column c, although "i" matches no pattern.
+    (A second refutation -- the malformed pattern "s.t.[" returned NO error and a table
+    without columns and indexes, because excludeT overwrote the error of an earlier filter --
+    is gone with fix C19-exclude-bad-pattern, notes/fixes/; the model follows the repaired
+    code and [C19_exclude_bad_pattern_reported] is the former witness.) *)
 From Atlas Require Import Excl.ExcludeSpec Excl.ExcludeProofs.
 
 Definition exr_realm : realm :=
@@ -88,18 +89,11 @@ Definition exr_realm : realm :=
      [mkIndex [105]%N false [mkPart 0 false (Some [99]%N) None] None None None] [] []]].
 
 Theorem C19_exclude_exact_refuted :
-  (exists r pats G r', split pats = EOk G /\ ExcludeRealm (true, true) r pats = EOk r' /\ r' <> strict_realm G r)
-  /\ (exists r pats G r', split pats = EOk G /\ Match (glob_of [91]%N) [99]%N = Bad
-        /\ ExcludeRealm (true, true) r pats = EOk r' /\ strict_realm G r = r /\ r' <> r).
+  exists r pats G r', split pats = EOk G /\ ExcludeRealm (true, true) r pats = EOk r' /\ r' <> strict_realm G r.
 Proof.
-  split.
-  - exists exr_realm, [[115;46;116;46;99]%N], [[[115]%N; [116]%N; [99]%N]].
-    eexists. split; [vm_compute; reflexivity|]. split; [vm_compute; reflexivity|].
-    vm_compute. intros H. discriminate H.
-  - exists exr_realm, [[115;46;116;46;91]%N], [[[115]%N; [116]%N; [91]%N]].
-    eexists. split; [vm_compute; reflexivity|]. split; [vm_compute; reflexivity|].
-    split; [vm_compute; reflexivity|]. split; [vm_compute; reflexivity|].
-    vm_compute. intros H. discriminate H.
+  exists exr_realm, [[115;46;116;46;99]%N], [[[115]%N; [116]%N; [99]%N]].
+  eexists. split; [vm_compute; reflexivity|]. split; [vm_compute; reflexivity|].
+  vm_compute. intros H. discriminate H.
 Qed.
 Print Assumptions C19_exclude_exact_refuted.
 
@@ -123,6 +117,10 @@ Proof.
 Qed.
 Print Assumptions C19_exclude_exact_except.
 
+Example C19_exclude_bad_pattern_reported :   (* "s.t.[" on a table without CHECK: ErrBadPattern *)
+  ExcludeRealm (true, true) exr_realm [[115;46;116;46;91]%N] = EErr EBadPattern.
+Proof. vm_compute. reflexivity. Qed.
+
 Example C19_exclude_nonvacuous :
   ExcludeRealm (true, true) exr_realm [[115;46;116;46;99;91;116;121;112;101;61;99;111;108;117;109;110;93]%N]
   = EOk [mkSchema [115]%N [mkTable [116]%N false false [] None
@@ -133,37 +131,82 @@ Proof. vm_compute. reflexivity. Qed.
     [Match p s = Ok b] with [b = true <-> Glob p s] when p is well formed (GlobSpec.v: the
     grammar and the declarative relation), and [Match p s = Bad] exactly when p is malformed.
 
-    Proved here (PARTIAL):
-    - chunk level, every chunk and every name (any bytes): on a chunk the grammar derives
-      without '*', [matchChunk] (classes, ranges, negation, escapes, '?', literals, the
-      [failed] flag, utf8 decoding) returns exactly the deterministic prefix matcher [PM],
-      and [PM] decides the declarative relation [Matches];
-    - whole patterns without a '*' byte: for every well-formed such pattern and EVERY name
-      [Match] answers [Ok b] with [b = true <-> Matches ts s], in particular never Bad, Fuel
-      or Panic.
-    - the ErrBadPattern half of the full statement is refuted as stated: a malformed pattern
-      whose bad chunk is not reached answers (false, nil) (C19_match_bad_exact_refuted).
-    Missing: the same equivalence through scanChunk and the greedy star loop of [Match]
-    (needs: scan's [inrange] flag coincides with the class structure of well-formed patterns,
-    rune-decoding is prefix-stable, leftmost-match suffices on plain names), and "Match = Ok
-    true only for well-formed patterns".  For names that are not plain (multi-byte runes,
-    '/') the equivalence is FALSE of Go's Match (Examples below, reproduced on the real code,
-    known findings C19-stdlib-...).  The star part is covered by the exhaustive tie only: all
-    patterns of <= 4 (thorough 5) symbols over {a,b,*,?,[,],-,\,^} x all names <= 3, model =
-    Go byte for byte, and Go compared with an independent reference matcher in the oracle. *)
-From Atlas Require Import Excl.GlobSpec Excl.GlobProofs.
+    Proved:
+    - [C19_match_spec]: for every WELL-FORMED pattern, through scanChunk, matchChunk and the
+      greedy star loop: (1) [Match] answers [Ok _] for EVERY name (any bytes) -- never
+      ErrBadPattern, out-of-fuel or panic; (2) for every PLAIN name (ASCII, no '/') the answer
+      is the declarative relation: [b = true <-> Glob p s].
+    - [C19_match_chunk]: chunk level for every name (any bytes): on a chunk the grammar derives
+      without '*', [matchChunk] = the deterministic prefix matcher [PM], which decides [Matches].
+    - [C19_match_spec_nonplain_refuted]: for names that are not plain the equivalence is FALSE of
+      Go's Match (a multi-byte rune after '*' here; '/' matched by a class is the other case:
+      Example C19_match_separator_quirk), reproduced on the real code by the tie.
+    - ErrBadPattern.  "Exactly on malformed patterns" is refuted ([C19_match_bad_exact_refuted]:
+      Go reports a bad chunk only when the scan reaches it); what holds exactly
+      ([C19_match_malformed_except], every pattern, every name, any bytes):
+      Match never runs out of fuel or panics; it answers true ONLY for well-formed patterns;
+      ErrBadPattern only for malformed ones; so a malformed pattern is answered ErrBadPattern or
+      (false, nil); and a malformed FIRST chunk (always reached) gives ErrBadPattern for every
+      name.  (Which later chunk is reached is the greedy scan itself: C19_match_spec describes
+      it on well-formed prefixes.) *)
+From Atlas Require Import Excl.GlobSpec Excl.GlobProofs Excl.GlobStar.
 
-Theorem C19_match_spec_partial :
-  (forall chunk items s, Parses chunk items -> no_star items ->
-     matchChunk chunk s = Ok (PM items s) /\ (PM items s = Some [] <-> Matches items s))
-  /\ (forall p ts s, Parses p ts -> starless p ->
-        exists b, Match p s = Ok b /\ (b = true <-> Matches ts s)).
+Theorem C19_match_spec :
+  forall p, WellFormed p ->
+    (forall s, exists b, Match p s = Ok b)
+    /\ (forall s, plain s -> exists b, Match p s = Ok b /\ (b = true <-> Glob p s)).
 Proof.
-  split.
-  - intros chunk items s HP Hn. split; [exact (matchChunk_parses chunk items s HP Hn)|exact (PM_Matches items Hn s)].
-  - intros p ts s HP Hs. exact (Match_starless p ts s HP Hs).
+  intros p Hw. split.
+  - intros s. exact (Match_total p s Hw).
+  - intros s Hp. exact (Match_Glob p s Hw Hp).
 Qed.
-Print Assumptions C19_match_spec_partial.
+Print Assumptions C19_match_spec.
+
+Theorem C19_match_chunk :
+  forall chunk items s, Parses chunk items -> no_star items ->
+     matchChunk chunk s = Ok (PM items s) /\ (PM items s = Some [] <-> Matches items s).
+Proof.
+  intros chunk items s HP Hn. split; [exact (matchChunk_parses chunk items s HP Hn)|exact (PM_Matches items Hn s)].
+Qed.
+Print Assumptions C19_match_chunk.
+
+Theorem C19_match_malformed_except :
+  forall p s,
+    ((exists b, Match p s = Ok b) \/ Match p s = Bad)
+    /\ (Match p s = Ok true -> WellFormed p)
+    /\ (Match p s = Bad -> ~ WellFormed p)
+    /\ (~ WellFormed p -> Match p s = Bad \/ Match p s = Ok false)
+    /\ (forall star chunk rest, p <> [] -> scanChunk p = (star, chunk, rest) -> star && is_nil chunk = false ->
+           (forall items, ~ (Parses chunk items /\ no_star items)) -> Match p s = Bad).
+Proof.
+  intros p s. split; [|split; [|split; [|split]]].
+  - destruct (Match_inv p s) as [[_ H]|H]; [left; exact H|right; exact H].
+  - destruct (Match_inv p s) as [[H _]|H]; [exact H|intros E; congruence].
+  - exact (Match_bad_malformed p s).
+  - exact (Match_malformed p s).
+  - intros star chunk rest. exact (Match_bad_first_chunk p s star chunk rest).
+Qed.
+Print Assumptions C19_match_malformed_except.
+
+(** the equivalence does not extend to every name: Match("*?*?x", "\u20acx") = false, although
+    under the declarative relation (a star may take any bytes but '/') * = E2, ? = 82, * = "",
+    ? = AC, x = x is a match: the first "?" greedily takes the whole rune at offset 0 and the
+    star loop never comes back *)
+Theorem C19_match_spec_nonplain_refuted :
+  exists p s, WellFormed p /\ Match p s = Ok false /\ Glob p s.
+Proof.
+  exists [42;63;42;63;120]%N, [226;130;172;120]%N.
+  assert (HP : Parses [42;63;42;63;120]%N [TStar; TAny; TStar; TAny; TLit 120%N]).
+  { apply P_star. apply P_any. apply P_star. apply P_any. apply P_lit; [reflexivity|apply P_nil]. }
+  split; [eexists; exact HP|]. split; [vm_compute; reflexivity|].
+  exists [TStar; TAny; TStar; TAny; TLit 120%N]. split; [exact HP|].
+  apply (M_star _ [226]%N [130;172;120]%N); [repeat constructor; discriminate|].
+  eapply (M_any _ 130%N [172;120]%N); [discriminate|vm_compute; reflexivity|]. cbn [skipn].
+  apply (M_star _ [] [172;120]%N); [constructor|].
+  eapply (M_any _ 172%N [120]%N); [discriminate|vm_compute; reflexivity|]. cbn [skipn].
+  apply M_lit. apply M_nil.
+Qed.
+Print Assumptions C19_match_spec_nonplain_refuted.
 
 Theorem C19_match_bad_exact_refuted :
   exists p s, ~ WellFormed p /\ Match p s = Ok false.
@@ -238,6 +281,48 @@ Print Assumptions C19_plan_ignores_excluded_partial.
 Theorem C19_plan_sqlite_driver : norm_keeps_cols sqlite_driver /\ attr_no_cols sqlite_driver.
 Proof. split; [exact sqlite_norm_keeps_cols | exact sqlite_attr_no_cols]. Qed.
 Print Assumptions C19_plan_sqlite_driver.
+
+(** the same at every level -- column, index, foreign key, check -- for NAME-PRESERVING drivers
+    (Normalize keeps the children of both tables; TableAttrDiff names only children of the two
+    tables): every change of the diff of the two filtered schemas targets a table / child of the
+    original state that no chain selects by name.  [plain_driver] (the SQLite callbacks with an
+    identity Normalize) is such a driver; the SQLite driver itself is not (it renames
+    sqlite_autoindex_* indexes and rewrites foreign-key symbols), which is why the SQLite
+    statement above stops at columns. *)
+Theorem C19_plan_ignores_excluded :
+  forall (D : DiffDriver) (skip : tag -> bool) (link1 link2 : bool * bool)
+         (patterns : list bytes) (G : list (list bytes)) (from to from' to' : schema) (cs : list schange),
+    norm_keeps_children D -> attr_targets D ->
+    split patterns = EOk G -> chains_ok G ->
+    ExcludeRealm link1 [from] patterns = EOk [from'] ->
+    ExcludeRealm link2 [to] patterns = EOk [to'] ->
+    SchemaDiff D skip from' to' = Some cs ->
+    forall c, In c cs -> unexcluded_target2 G from to c.
+Proof.
+  intros D skip link1 link2 patterns G from to from' to' cs Hn Ha Hs HG H1 H2 Hd c Hc.
+  rewrite (ExcludeRealm_ref link1 [from] patterns G Hs HG) in H1.
+  rewrite (ExcludeRealm_ref link2 [to] patterns G Hs HG) in H2.
+  unfold ref_realm in H1, H2. simpl in H1, H2.
+  destruct (schema_hit G from); [discriminate|]. destruct (schema_hit G to); [discriminate|].
+  simpl in H1, H2. inversion H1; subst. inversion H2; subst.
+  exact (plan_ignores_excluded2 D skip link1 link2 G from to cs Hn Ha Hd c Hc).
+Qed.
+Print Assumptions C19_plan_ignores_excluded.
+
+Theorem C19_plan_plain_driver : norm_keeps_children plain_driver /\ attr_targets plain_driver.
+Proof. exact plain_driver_ok. Qed.
+Print Assumptions C19_plan_plain_driver.
+
+(** [chains_ok] follows from well-formedness of every glob (C19_match_spec, first half) *)
+Theorem C19_chains_ok_wf :
+  forall G : list (list bytes),
+    Forall (fun g => g <> [] /\ List.length g <= 3 /\ Forall (fun v => WellFormed (glob_of v)) g) G -> chains_ok G.
+Proof.
+  intros G H. unfold chains_ok. eapply Forall_impl; [|exact H]. intros g (H1 & H2 & H3).
+  split; [exact H1|]. split; [exact H2|]. eapply Forall_impl; [|exact H3].
+  intros v Hw n. exact (Match_total (glob_of v) n Hw).
+Qed.
+Print Assumptions C19_chains_ok_wf.
 
 (** non-vacuity: column b of t is excluded in both states, column c is added: the plan adds c
     and says nothing about b, which only the current state has *)
